@@ -63,6 +63,10 @@ func def(p map[string]int, k string, d int) int {
 
 var registry = []*Workload{
 	{
+		Name: "synthetic-reupload", Outputs: []string{"out"}, Integer: true,
+		New: func(d *driver.Driver, a arch.Type, p map[string]int) benchmarks.Benchmark { return newReupload(d, p) },
+	},
+	{
 		Name: "vectoradd", Outputs: []string{"dA"}, Tol: 0,
 		New: func(d *driver.Driver, a arch.Type, p map[string]int) benchmarks.Benchmark {
 			b := vectoradd.NewBenchmark(d)
